@@ -152,7 +152,21 @@ class A(StateFormula, CTLS.A):
     A class representing LTL A-formulas.
 
     '''
-    pass
+
+    def get_equivalent_restricted_formula(self):
+        r''' Return an equivalent formula in the restricted syntax.
+
+        LTL has no :math:`E` quantifier: the quantifier :math:`A` is kept and
+        the path formula is replaced by its restricted equivalent.
+
+        :returns: a formula :math:`A \rho` where :math:`\rho` avoids
+                  :math:`F`, :math:`G`, :math:`R`, :math:`\land` and
+                  :math:`\rightarrow` and is equivalent to this formula
+        :rtype: LTL.A
+        '''
+        subformula = self.subformula(0).get_equivalent_restricted_formula()
+
+        return A(subformula)
 
 
 alphabet = get_alphabet(__name__)
